@@ -101,7 +101,7 @@ fn build(cfg: &Cfg) -> SchemaSet {
                 el("Nested", TypeRef::n(NS_W, "Level1")),
                 el("Derived", TypeRef::n(NS_W, "DerivedT")),
             ])),
-            attrs: vec![Attr { name: "attr".into(), ty: r.clone(), required: false }],
+            attrs: vec![Attr { name: "attr".into(), ty: r.clone(), required: false, value_constraint: None }],
         },
     }));
     w.schema.comps.push(anon_element("Hdr", vec![el("Token", r.clone())]));
